@@ -42,7 +42,7 @@ CHECKS = {
          "Decides, for every derivation shape of at most 5 (thorough 6) nodes — empty and non-empty leaves, gaps before/between/after children, equal parent/child spans — that AST() returns exactly the tree of non-empty tokens with children in input order and that the printer emits one line per node in pre-order with its rule's name and exactly the runes it spans (text with 2/3/4-byte runes); AST() only compares offsets, so the shapes stand for all offsets with the same order pattern. Plus: quoted text is a rune slice, every printer prints AST() with the parser's own Buffer, the adoption test over all orderings. Bounded in derivation size (no induction over arbitrarily deep or wide trees).",
          "DESIGN.md §4 C05",
          "Trusts go/ssa, the instantiator and the interpreter; assumes C03 (post-order token list)."),
- "C01": ("abstract interpretation of the emitter's source (E1) into operator templates on model trees with opaque children; instantiation of the runtime template (E3); disjunctive typestate dataflow on go/cfg of each emitted rule function compared with an independent PEG oracle (E2)",
+ "C01": ("abstract interpretation of the emitter's source (E1) into operator templates on model trees with opaque children; instantiation of the runtime template (E3); disjunctive typestate dataflow on go/cfg of each emitted rule function compared with an independent PEG oracle (E2); the same comparison for grammars given as builder calls and taken through the whole of Compile (R-whole-semantics)",
          "Decides the inductive PEG contract of every operator template under default options: the set of (verdict, final position, order/position of child attempts) the emitted code can produce equals the oracle's, for every expression node type, 1–3 children, all may-fail/never-fail flavours and two-level compositions; plus soundness of the always-succeeds shortcut and agreement of rule constants with the rule table. By structural induction these per-operator facts are necessary and, for well-formed grammars, sufficient.",
          "DESIGN.md §4 C01",
          "Trusts the interpreter's subset (it refuses anything else), go/types, go/cfg, the oracle in spec.go; assumes link's output shape as modelled (cross-checked by evaluating link) and that Go executes the emitted text as Go."),
